@@ -293,7 +293,7 @@ def generator_side(ue):
     """a RANDOM schema the kernel accepts but whose generated Go package does not generate/build: C14's subject (accepted schemas
     build), listed in the evidence, not a violation of this property"""
     name, e = ue
-    return name.startswith("rs") and str(e).startswith(("go build:", "tl2gen:"))
+    return name.startswith(("rs", "rt2_", "objr")) and str(e).startswith(("go build:", "tl2gen:"))
 
 
 def family_report(ctx, st, props, consts, corr_name, mism, bad, unit_errors, stats, samples, rule, trusted, assumptions, extra=None):
@@ -594,7 +594,10 @@ def tl2_random_schema(rng, ns="t2"):
         elif k < 0.9:
             lines.append(f"{name} = " + " ".join(f"| E{i}x{v}" for v in range(rng.randrange(2, 5))) + ";")
         else:
-            lines.append(f"{name} <=> {ftype()};")
+            at = ftype()
+            while at == "bool":      # an alias of bool does not compile (C14-type generator defect `item.ptr() (*bool) as bool`): avoided
+                at = ftype()
+            lines.append(f"{name} <=> {at};")
         decls.append(name)
     return "\n".join(lines) + "\n"
 
